@@ -130,7 +130,13 @@ class ExecGen:
         else:
             val = {"k": "bool", "v": r.chance(1, 2)}
         out = [G.directive(d, [G.arg("if", val)])]
-        if r.chance(1, 8):
+        if allow_vars and r.chance(1, 6):
+            # a second, variable-driven condition of the other kind on the same selection (possibly on the same variable)
+            d2 = "include" if d == "skip" else "skip"
+            v2 = r.choice(["a", "b"])
+            self.used_vars.add(v2)
+            out.append(G.directive(d2, [G.arg("if", G.v_var(v2))]))
+        elif r.chance(1, 8):
             d2 = "include" if d == "skip" else "skip"
             out.append(G.directive(d2, [G.arg("if", {"k": "bool", "v": d2 == "include"})]))
         return out
